@@ -783,7 +783,10 @@ fn format_datetime_with_pattern(datetime_str: &str, pattern: &str) -> String {
 
     pattern
         .replace("%Y", year)
-        .replace("%y", &year[year.len().saturating_sub(2)..])
+        .replace(
+            "%y",
+            year.char_indices().rev().nth(1).map_or(year, |(i, _)| &year[i..]),
+        )
         .replace("%m", month)
         .replace("%c", &month_num.to_string())
         .replace("%d", day)
